@@ -54,20 +54,24 @@ Proof. reflexivity. Qed.
 
 Lemma int2b128_loop_spec f : forall n acc, 0 <= n < 2 ^ Z.of_nat f ->
   exists ds, int2b128_loop1 (S f) n acc = Ok (acc ++ ds) /\ le_val 128 ds = n /\ digits_ok 128 ds /\
-             (0 < n -> ds <> []).
+             (n = 0 -> ds = []) /\ (0 < n -> exists ds' m, ds = ds' ++ [m] /\ 0 < m).
 Proof.
   induction f as [|f IH]; intros n acc Hn.
   - assert (n = 0) by (cbn in Hn; lia). subst n. exists []. cbn. rewrite app_nil_r.
-    repeat split; [constructor | lia].
+    split; [reflexivity|split; [reflexivity|split; [constructor|split; [reflexivity|lia]]]].
   - rewrite int2b128_loop_unfold. destruct (Z.eqb_spec n 0) as [->|Hnz]; cbn [negb].
-    + exists []. rewrite app_nil_r. repeat split; [constructor | lia].
+    + exists []. rewrite app_nil_r.
+      split; [reflexivity|split; [reflexivity|split; [constructor|split; [reflexivity|lia]]]].
     + rewrite land127, shiftr7.
-      destruct (IH (n / 128) (acc ++ [n mod 128]) (half_bound n f Hn 128 ltac:(lia))) as (ds & E & V & D & _).
+      destruct (IH (n / 128) (acc ++ [n mod 128]) (half_bound n f Hn 128 ltac:(lia))) as (ds & E & V & D & Z0 & T).
       exists ((n mod 128) :: ds). rewrite E, <- app_assoc. cbn [app le_val].
-      repeat split.
-      * rewrite V. pose proof (Z.div_mod n 128 ltac:(lia)). lia.
-      * constructor; [apply Z.mod_pos_bound; lia | exact D].
-      * discriminate.
+      pose proof (Z.div_mod n 128 ltac:(lia)) as DM. pose proof (Z.mod_pos_bound n 128 ltac:(lia)) as MB.
+      split; [reflexivity|split; [rewrite V; lia|split; [constructor; [exact MB | exact D]|split; [lia|]]]].
+      intros _. destruct (Z.eq_dec (n / 128) 0) as [Hz|Hz].
+      * rewrite (Z0 Hz). exists [], (n mod 128). split; [reflexivity|lia].
+      * assert (H : 0 < n / 128) by (pose proof (Z.div_pos n 128 ltac:(lia) ltac:(lia)); lia).
+        destruct (T H) as (ds'' & m & Eq & Hm). exists ((n mod 128) :: ds''), m.
+        rewrite Eq. split; [reflexivity|exact Hm].
 Qed.
 
 Lemma log2_fuel n : 0 < n -> 0 <= n < 2 ^ Z.of_nat (S (Z.to_nat (Z.log2 n))).
@@ -82,8 +86,9 @@ Proof.
   intros Hn. unfold int2b128. destruct (Z.eqb_spec n 0) as [->|Hnz].
   - exists [0]. repeat split; [constructor; [lia|constructor] | discriminate].
   - destruct (Z.gtb_spec n 0) as [Hp|]; [|lia].
-    destruct (int2b128_loop_spec _ n acc (log2_fuel n Hp)) as (ds & E & V & D & NE).
-    exists ds. repeat split; auto.
+    destruct (int2b128_loop_spec _ n acc (log2_fuel n Hp)) as (ds & E & V & D & _ & T).
+    exists ds. split; [exact E|split; [exact V|split; [exact D|]]].
+    destruct (T Hp) as (ds' & m & -> & _). destruct ds'; discriminate.
 Qed.
 
 Lemma int2b128_negative n acc : n < 0 -> int2b128 n acc = Exc "AssertionError"%string.
@@ -114,6 +119,32 @@ Theorem b128_roundtrip n : 0 <= n ->
 Proof.
   intros Hn. destruct (int2b128_spec n [] Hn) as (ds & E & V & D & NE).
   exists ds. cbn [app] in E. repeat split; auto. rewrite b1282int_spec, V. reflexivity.
+Qed.
+
+(* the encoder emits the minimal number of digits: at most k digits for n < 128^k *)
+Lemma le_val_bound b ds : 2 <= b -> digits_ok b ds -> 0 <= le_val b ds < b ^ Z.of_nat (List.length ds).
+Proof.
+  intros Hb D. induction D as [|d ds Hd D IH]; cbn [le_val List.length].
+  - rewrite Z.pow_0_r. lia.
+  - rewrite Nat2Z.inj_succ, Z.pow_succ_r by lia. nia.
+Qed.
+
+Theorem int2b128_length n acc ds k : 0 <= n < 128 ^ Z.of_nat k -> (1 <= k)%nat ->
+  int2b128 n acc = Ok (acc ++ ds) -> (List.length ds <= k)%nat.
+Proof.
+  intros Hn Hk E. unfold int2b128 in E. destruct (Z.eqb_spec n 0) as [->|Hnz].
+  - inversion E as [E']. apply app_inv_head in E'. subst ds. cbn. lia.
+  - destruct (Z.gtb_spec n 0) as [Hp|]; [|lia].
+    destruct (int2b128_loop_spec _ n acc (log2_fuel n Hp)) as (ds0 & E0 & V & D & _ & T).
+    rewrite E0 in E. inversion E as [E']. apply app_inv_head in E'. subst ds0.
+    destruct (T Hp) as (ds' & m & -> & Hm).
+    rewrite le_val_app in V. cbn [le_val] in V. apply Forall_app in D as [D1 D2].
+    pose proof (le_val_bound 128 ds' ltac:(lia) D1) as B1.
+    rewrite app_length. cbn [List.length].
+    destruct (Nat.le_gt_cases (List.length ds' + 1) k) as [|Hgt]; [assumption|exfalso].
+    assert (Hle : Z.of_nat k <= Z.of_nat (List.length ds')) by lia.
+    assert (128 ^ Z.of_nat k <= 128 ^ Z.of_nat (List.length ds')) by (apply Z.pow_le_mono_r; lia).
+    assert (0 < 128 ^ Z.of_nat (List.length ds')) by (apply Z.pow_pos_nonneg; lia). nia.
 Qed.
 
 (* ---------------- long_to_bytes / bytes_to_long ---------------- *)
@@ -184,13 +215,6 @@ Proof.
 Qed.
 
 (* byte length of long_to_bytes n : the k with 256^(k-1) <= n < 256^k  (k = 0 for n = 0) *)
-Lemma le_val_bound b ds : 2 <= b -> digits_ok b ds -> 0 <= le_val b ds < b ^ Z.of_nat (List.length ds).
-Proof.
-  intros Hb D. induction D as [|d ds Hd D IH]; cbn [le_val List.length].
-  - rewrite Z.pow_0_r. lia.
-  - rewrite Nat2Z.inj_succ, Z.pow_succ_r by lia. nia.
-Qed.
-
 Theorem long_to_bytes_length n bs : 0 < n -> long_to_bytes n = Ok bs ->
   256 ^ (Z.of_nat (List.length bs) - 1) <= n < 256 ^ Z.of_nat (List.length bs).
 Proof.
